@@ -253,10 +253,18 @@ def execLine2 (w : World) (line : String) : World × String :=
         match Ss.deploy text g with
         | (s, .ok, k) => (w.set a (.live s.g), s!"ok {k} ; " ++ showNats (keys s.g))
         | (s, .err, _) => (w.set a (.live s.g), "err ; " ++ showNats (keys s.g))
-        | (_, .panic, _) => (w.set a .dead, "panic")
+        | (_, .panic, _) =>
+          if w.soak then
+            -- soak mode: the graph stays in use in the state the panicking call of the script left behind
+            (w.set a (.total (Ss.deployX text ⟨g, []⟩).1.x true), "panic")
+          else (w.set a .dead, "panic")
       | some .dead => (w, "dead")
       | some .unmodelled => (w, "unmodelled")
-      | some (.total _ _) => (w.set a .unmodelled, "unmodelled")
+      | some (.total x p) =>
+        match Ss.deployX text x with
+        | (s, .ok, k) => (w.set a (.total s.x p), s!"ok {k} ; " ++ showNats (keysX s.x))
+        | (s, .err, _) => (w.set a (.total s.x p), "err ; " ++ showNats (keysX s.x))
+        | (s, .panic, _) => if w.soak then (w.set a (.total s.x true), "panic") else (w.set a .dead, "panic")
       | none => (w, "bad-op")
     | _, _ => (w, "bad-op")
   | ["save", h] =>
